@@ -199,8 +199,21 @@ def build_universe(seed, tier):
     return u
 
 
+def point_at_repo():
+    """The crates under test are path dependencies on /repo. For background sweeps that must not be disturbed by
+    edits of /repo, VERIF_REPO may name a copy: the manifests of this checkout of /verif are then rewritten to it
+    (the registered commands never set it)."""
+    repo = os.environ.get('VERIF_REPO', '/repo').rstrip('/')
+    for f in (os.path.join(HARNESS, 'Cargo.toml'), os.path.join(VERIF, 'probes', 'Cargo.toml')):
+        txt = open(f).read()
+        new = re.sub(r'path = "[^"]*/(epserde(?:-derive)?)"', lambda m: 'path = "%s/%s"' % (repo, m.group(1)), txt)
+        if new != txt:
+            open(f, 'w').write(new)
+
+
 def harness_build(u):
     """write the generated module and rebuild the harness against /repo's current working tree"""
+    point_at_repo()
     os.makedirs(WORK, exist_ok=True)
     src = u.rust_source()
     path = os.path.join(HARNESS, 'src', 'gen_types.rs')
